@@ -17,7 +17,7 @@ use crate::{
 /// with its endpoint. Tokens of CIDs it has retired, and every token of a connection that has
 /// drained, must route nowhere: not to the forgotten handle, not to whoever took over its slot,
 /// and a retired token must not end a connection that is still alive.
-fn retired_token_phase(w: &mut crate::world::World, r: &mut Rng, lane: Lane) {
+pub fn retired_token_phase(w: &mut crate::world::World, r: &mut Rng, lane: Lane) {
     if lane != Lane::Null {
         return; // (frames are only readable on the plaintext lane)
     }
@@ -28,8 +28,11 @@ fn retired_token_phase(w: &mut crate::world::World, r: &mut Rng, lane: Lane) {
     for ((ei, pair), n) in seen {
         let alive = w.eps[ei].conns.values().any(|c| c.pair == pair && !c.c.is_drained());
         let dst = w.eps[ei].addr;
+        // (short CIDs repeat, and a token is a function of its CID: a retired sequence number may
+        // carry the same token as one still in use)
+        let maybe_active: std::collections::BTreeSet<[u8; 16]> = n.tokens.iter().filter(|(seq, _)| !n.retired_sent.contains(seq)).map(|(_, t)| *t).collect();
         for (seq, tok) in &n.tokens {
-            if alive && !n.retired_sent.contains(seq) {
+            if alive && (!n.retired_sent.contains(seq) || maybe_active.contains(tok)) {
                 // possibly the token in use (that one legitimately resets); only those the
                 // connection itself announced as retired are certainly not
                 continue;
